@@ -364,6 +364,10 @@ def _oracle(case, out):
 
 class C11(diffcheck.DiffProp):
     pid = "C11"
+    manifest = dict(
+        text="Unbounded Coq theorems (induction over every schedule of the inner stream, every payload, every buffer length/capacity) about an executable model of compio-io's helper algorithms (read_exact, read_to_end, write_all, copy, BufReader, BufWriter, Take, in-memory readers/writers); the model is tied to the code on every run by an exact differential correspondence over 18 helper operations plus an independent oracle.",
+        note="Trusted: Coq kernel; ExtrOcamlBasic extraction + generic OCaml driver; the Rust harness' scripted reader/writer; std Vec growth policy (modelled); constants via tools/consts.py. The theorems are about the model; the code is covered as far as the correspondence exercises it. No axioms (Print Assumptions: closed under the global context). Known findings: zero-capacity BufReader / copy buffer (false EOF).",
+        technique="Coq proof (induction on the environment schedule) + extracted-model differential correspondence")
     prop_file = "prop/C11.v"
     model_name = "c11"
     harness_bin = "c11"
